@@ -6,8 +6,6 @@ From Coq Require Import DecimalN Permutation Arith PeanoNat.
 (* ------------------------------------------------------------------ *)
 (* strings *)
 
-Definition clean_char (c : N) : bool := negb (N.eqb c cTAB || N.eqb c cLF || N.eqb c cCR).
-Definition clean (s : str) : bool := forallb clean_char s.
 
 Lemma clean_not_in s c : clean s = true -> (c = cTAB \/ c = cLF \/ c = cCR) -> ~ In c s.
 Proof.
@@ -402,23 +400,6 @@ Qed.
 (* layer 4: interpretation of the forest *)
 
 (* what a .tinydiff can carry *)
-Definition okname (valid : str -> bool) (s : str) : bool := clean s && valid s.
-Definition act_all (p : str -> bool) (a : action str) : bool :=
-  match a with ANone => true | AAdd b => p b | ARem x => p x | AEdit x y => p x && p y end.
-Definition textual_param (p : pdiff) : bool :=
-  N.leb (pd_index p) usize_max && act_all (okname is_valid_unqualified_name) (pd_info p).
-Definition textual_field (f : fdiff) : bool :=
-  clean (fd_desc f) && okname is_valid_unqualified_name (fd_name f)
-  && act_all (okname is_valid_unqualified_name) (fd_info f).
-Definition textual_meth (m : mdiff) : bool :=
-  clean (md_desc m) && okname is_valid_method_name (md_name m)
-  && act_all (okname is_valid_method_name) (md_info m) && forallb textual_param (md_params m).
-Definition textual_class (c : cdiff) : bool :=
-  okname is_valid_obj_class_name (cd_name c) && act_all (okname is_valid_obj_class_name) (cd_info c)
-  && forallb textual_field (cd_fields c) && forallb textual_meth (cd_methods c).
-Definition is_anone (a : action str) : bool := match a with ANone => true | _ => false end.
-Definition textual_diff (d : mdiffs) : bool :=
-  wf_diff d && forallb textual_class (d_classes d) && is_anone (d_info d) && is_anone (norm_action (d_doc d)).
 
 Definition nonempty_valid (valid : str -> bool) : Prop := forall s, valid s = true -> s <> [].
 
